@@ -34,6 +34,17 @@ def same_mesh(a, b, exact=True):
         x, y = getattr(a.edge_mesh, n), getattr(b.edge_mesh, n)
         if not (np.array_equal(x, y) if exact else np.allclose(x, y, rtol=1e-12, atol=1e-14)):
             return "edge_mesh." + n
+    # the Voronoi cell polygons (one vertex list per site, the last site's included)
+    va, vb = getattr(a, "voronoi_polygons", None), getattr(b, "voronoi_polygons", None)
+    if (va is None) != (vb is None):
+        return "voronoi_polygons (present in one only)"
+    if va is not None:
+        if len(va) != len(vb):
+            return "voronoi_polygons (count)"
+        for i, (x, y) in enumerate(zip(va, vb)):
+            x, y = np.asarray(x), np.asarray(y)
+            if x.shape != y.shape or not (np.array_equal(x, y) if exact else np.allclose(x, y, rtol=1e-12, atol=1e-14)):
+                return f"voronoi_polygons[{i}] of {len(va)}"
     return None
 
 
